@@ -15,9 +15,9 @@ import (
 	"testing"
 )
 
-var c09Targets = []string{"/", "/a", "/a/b", "/a/?b", "/a/?{o}", "/{x}", "/f/{p: **}", "/f/{p: **, capture: 2}", "/{n: /[0-9]+/}", "/?r", "/a/{y}/c"}
+var c09Targets = []string{"/", "/a", "/a/b", "/a/?b", "/a/?{o}", "/{x}", "/f/{p: **}", "/f/{p: **, capture: 2}", "/{n: /[0-9]+/}", "/?r", "/a/{y}/c", "/e/q%20d", "/e/%41"}
 var c09Others = [][]string{nil, {"/{**}"}, {"/a"}, {"/a/{z}"}, {"/{w}"}, {"/f/{q}"}}
-var c09Paths = []string{"/", "/a", "//a", "/a/", "/a/b", "/a/x", "/a/x/c", "/f/1", "/f/1/2", "/f/1/2/3", "/5", "/x", "/r", "/a/b/c"}
+var c09Paths = []string{"/", "/a", "//a", "/a/", "/a/b", "/a/x", "/a/x/c", "/f/1", "/f/1/2", "/f/1/2/3", "/5", "/x", "/r", "/a/b/c", "/e/q d", "/e/q%20d", "/e/A", "/e/%41"}
 
 // constraint histories: each is a list of Headers() calls (pairs); the last one is in force
 var c09Histories = [][][]string{
